@@ -153,11 +153,13 @@ def run_enum_incremental(case):
 
     exp = {n: Q(0) for n in names}
     leaves = 0
+    lossy = False     # the library handed out floats although it was fed exact rationals (e.g. int / int for bool-valued losses)
     try:
         for p, contrib, _path in rng.enumerate_runs(one, max_leaves=case.get('max_leaves', MAX_LEAVES['n']), early=True):
             leaves += 1
             for n in names:
                 exp[n] = exp[n] + p * contrib[n]
+                lossy = lossy or isinstance(contrib[n], (float, np.floating))
     except rng.NotEnumerable as e:
         return Result(True, nontrivial=False, labels=['not_enumerable'], detail=str(e))
     except TypeError as e:
@@ -181,7 +183,7 @@ def run_enum_incremental(case):
                                   [Fraction(1, m - 1)] * (m - 1) + [Fraction(0)])[0] if m > 1 else want
         fixed = sage_expectation(model_ref, loss_ref, x, y, names, stored, strategy, n_inner, L0, fixed_order=True)[0]
     for n in names:
-        if exp[n] != want[n]:
+        if _differs(exp[n], want[n], lossy):
             return Result(False, key=f"C04:{case['cls']}:{strategy}:expectation",
                           detail=(f'feature {n!r}: exact expectation of the library estimator over {leaves} outcomes is {exp[n]!r}, the '
                                   f'exhaustive reference ({"Shapley value" if case["cls"] == "sage" else "resampled loss increase"}) is {want[n]!r}'))
@@ -238,11 +240,13 @@ def run_enum_batch(case):
 
     exp = {n: Q(0) for n in names}
     leaves = 0
+    lossy = False     # the library handed out floats although it was fed exact rationals (e.g. int / int for bool-valued losses)
     try:
         for p, vals, _path in rng.enumerate_runs(one, max_leaves=case.get('max_leaves', MAX_LEAVES['n']), early=True):
             leaves += 1
             for n in names:
                 exp[n] = exp[n] + p * vals[n]
+                lossy = lossy or isinstance(vals[n], (float, np.floating))
     except rng.NotEnumerable as e:
         return Result(True, nontrivial=False, labels=['not_enumerable'], detail=str(e))
     except TypeError as e:
@@ -263,7 +267,7 @@ def run_enum_batch(case):
             want[n] = want[n] + sh[n] / nrows
             biased[n] = biased[n] + bs[n] / nrows
     for n in names:
-        if exp[n] != want[n]:
+        if _differs(exp[n], want[n], lossy):
             extra = ''
             if how == 'original' and all(exp[m_] == biased[m_] for m_ in names):
                 extra = ' - it equals the expectation under background rows drawn only from the observations BEFORE the explained one'
@@ -524,6 +528,14 @@ def replay(sub, case):
 # every leaf of an enumeration deep-copies a warm explainer (~10-20 ms): the cap bounds one case to ~30 s (quick) / ~2 min (thorough);
 # larger trees are recognised after their first leaf and skipped (label not_enumerable)
 MAX_LEAVES = {'n': 1500}
+
+
+def _differs(got, want, lossy):
+    """Exact rationals are compared with ==.  Where the implementation itself left exact arithmetic (it returned floats) a mismatch only
+    counts if it also exceeds a float tolerance (DESIGN 2.3)."""
+    if got == want:
+        return False
+    return not lossy or abs(float(got) - float(want)) > 1e-9 * max(1.0, abs(float(want)))
 
 
 def self_check():
